@@ -14,17 +14,24 @@ use rt::spec::{Entry, HandlerSpec, Kind};
 use serde_json::Value;
 use sylvia::cw_std::Coin;
 
-pub struct ProxyTwin;
+pub struct ProxyTwin {
+    /// drive the proxies of the custom-chain programs (family f5) instead of the dispatch family
+    pub custom_chain: bool,
+}
 
 impl Profile for ProxyTwin {
     fn property(&self) -> &'static str {
         "C12"
     }
     fn name(&self) -> &'static str {
-        "f1-proxy-twin"
+        if self.custom_chain {
+            "f5-proxy-twin"
+        } else {
+            "f1-proxy-twin"
+        }
     }
     fn gen_world(&self, rng: &mut Rng, reg: &Reg) -> WorldPlan {
-        let pool: Vec<&Entry> = reg.tagged("proxy").into_iter().filter(|e| e.spec.has_tag("regular") && e.proxy.is_some()).collect();
+        let pool: Vec<&Entry> = reg.tagged("proxy").into_iter().filter(|e| e.spec.has_tag("regular") && e.proxy.is_some() && e.spec.custom_chain == self.custom_chain).collect();
         let n = rng.range(1, 3 + crate::extra_contracts()) as usize;
         let mut codes = vec![];
         let mut codes1 = vec![];
@@ -53,7 +60,7 @@ impl Profile for ProxyTwin {
                 salt: None,
             }));
         }
-        WorldPlan { custom_chain: false, twin: true, accounts, codes, codes1, setup }
+        WorldPlan { custom_chain: self.custom_chain, twin: true, accounts, codes, codes1, setup }
     }
     fn gen_ops(&self, rng: &mut Rng, reg: &Reg, wp: &WorldPlan, base: &RunRecord) -> Vec<Op> {
         if base.contracts.is_empty() {
@@ -64,6 +71,10 @@ impl Profile for ProxyTwin {
         sg.funds_pm = *rng.pick(&[0, 200]);
         sg.typed_pct = *rng.pick(&[0, 50, 100]);
         sg.max_depth = rng.range(0, 2 + crate::extra_depth()) as u32;
+        if self.custom_chain {
+            sg.extra_msgs_pm = *rng.pick(&[0, 400]);
+            sg.reply_pm = *rng.pick(&[0, 600]);
+        }
         let accounts = &base.accounts;
         let n = rng.range(3, 12 * crate::scale());
         let mut ops = vec![];
